@@ -646,3 +646,27 @@ Theorem C08_model_is_source_prec_W_step : forall g d orc s,
   prog_eq (to_prog (src_prec_W_step g d orc true s)) (step_prog g d orc BPrecW s).
 Proof. exact src_prec_W_step_is_model. Qed.
 Print Assumptions C08_model_is_source_prec_W_step.
+
+(* the vector Gaussian block of the samples: the loop, the prior-only branch N(0, diag 1/tau), the design matrix from the four
+   get calls, old contribution, residual, Xt @ resid * prec, Xt @ X * prec with tau on the diagonal, the try/except around
+   sample_mvn_from_precision (a raising call = the answer VFail: state unchanged), store, incremental cache update *)
+Theorem C08_model_is_source_W_step : forall g d orc s,
+  length (W s) = c_ncl g -> shape2 (V2 s) (c_ndd g) (c_D g) -> shape2 (V1 s) (c_ndd g) (c_D g) ->
+  prog_eq (to_prog (src_W_step g d s)) (step_prog g d orc BW s).
+Proof. exact src_W_step_is_model. Qed.
+Print Assumptions C08_model_is_source_W_step.
+
+(* the vector Gaussian blocks of the treatments: the two slices (m first / m second), their design rows W[cline] * get(V2, other)
+   resp. W[cline], concatenation, prior phi[m] * eta, try/except, store, cache update with the concatenated index.  The rows
+   of V2 / V1 redrawn earlier in the loop may have any length (all drawn values are quantified over). *)
+Theorem C08_model_is_source_V2_step : forall g d orc s,
+  length (V2 s) = c_ndd g -> shape2 (W s) (c_ncl g) (c_D g) -> shape2 (phi2 s) (c_ndd g) (c_D g) -> length (eta2 s) = c_D g ->
+  prog_eq (to_prog (src_V2_step g d s)) (step_prog g d orc BV2 s).
+Proof. exact src_V2_step_is_model. Qed.
+Print Assumptions C08_model_is_source_V2_step.
+
+Theorem C08_model_is_source_V1_step : forall g d orc s,
+  length (V1 s) = c_ndd g -> shape2 (W s) (c_ncl g) (c_D g) -> shape2 (phi1 s) (c_ndd g) (c_D g) -> length (eta1 s) = c_D g ->
+  prog_eq (to_prog (src_V1_step g d s)) (step_prog g d orc BV1 s).
+Proof. exact src_V1_step_is_model. Qed.
+Print Assumptions C08_model_is_source_V1_step.
